@@ -49,7 +49,7 @@ def rule(fn, kind, expr, ordn, guards, contract):
     if fn == 'cron.SpecSchedule.Next':
         if kind in ('goto', 'loop'):
             return thm('C04Next', 'Kit.CronSpec.next_terminates', [])
-        return '.typeInvariant "SpecSchedule.Location is set by Parse to time.Local or a loaded zone and t.Location() never returns nil: the *time.Location arguments are non-nil"'
+        return '.byFact "cron.SpecSchedule literals with Location set from a variable" "6 of 6" "Parse assigns loc from time.Local or a successful time.LoadLocation and every schedule it builds carries it; t.Location() never returns nil"'
     # ---------------- time ----------------
     if fn == 'time.ParseISO8601Duration':
         n = {'from[0]': ['!(l < 2)'], 'from[1:i]': ['!(i-1 < 1)'], 'from[start:i]': ['for i < l'], 'for without condition': ['!(l < 2)'], 'for ; i < l; ': ['!(l < 2)']}.get(expr)
@@ -58,7 +58,7 @@ def rule(fn, kind, expr, ordn, guards, contract):
         return thm('C07', 'parseISO8601_never_panics', need(*n))
     # ---------------- crypto ----------------
     if fn in ('crypto.encryptPublicKeyRSAOAEP', 'crypto.decryptPrivateKeyRSAOAEP'):
-        return '.delegated "crypto" "crypto.SHA1/SHA256/SHA384/SHA512 are linked into every binary that links this package (crypto/x509, imported by keys.go, imports them); getSHAHash is only called with the *-256/384/512 algorithm names"'
+        return '.byFact "hash packages in the transitive imports of package crypto" "crypto/sha1,crypto/sha256,crypto/sha512" "crypto.Hash.New panics only for a hash that is not linked in; getSHAHash is called with the *-256/384/512 names only (C03 dispatch_never_out_of_range)"'
     if fn == 'crypto.signPrivateKeyEdDSA':
         return '.delegated "jwx" "okpKey.Raw builds the private key with ed25519.NewKeyFromSeed after checking the seed size, so it has PrivateKeySize bytes (exercised: d of every length 0..40)"'
     if fn == 'crypto.verifyPublicKeyEdDSA':
@@ -150,7 +150,7 @@ def rule(fn, kind, expr, ordn, guards, contract):
     # ---------------- enc ----------------
     if fn in ('schemes/enc/v1.processSegments', 'schemes/enc/v1.readHeader'):
         if kind == 'assert':
-            return '.typeInvariant "BufPool.New returns *[]byte and only such values are Put back (C08)"'
+            return '.byFact "enc.BufPool holds *[]byte only (New\'s result, Put arguments in the package)" "New: true; Put: 2 of 2" "the unchecked assertion on BufPool.Get() sees only what New returns or the package Put back (other packages putting foreign values is C08)"'
         if kind == 'loop':
             t = {'for ; !done; ': 'processSegments_terminates', 'for ; n < (segmentSize+1) && err == nil; ': 'fill_terminates',
                  'for ; newlines < 3 && err == nil; ': 'readHeader_terminates'}[expr]
@@ -165,7 +165,7 @@ def rule(fn, kind, expr, ordn, guards, contract):
     # ---------------- metadata ----------------
     if fn == 'metadata.toTimeDurationHookFunc':
         if kind == 'call':
-            return '.callerContract "f and t are the non-nil reflect.Types mapstructure passes to a DecodeHookFuncType"'
+            return thm('C07Sites', 'Kit.C07.hookTypeCalls_sites', [])
         return thm('C07', 'hookChain_never_panics', need('!(t != reflect.TypeOf(Duration{}) && t != reflect.TypeOf(time.Duration(0)))'))
     if fn in ('metadata.toTruthyBoolHookFunc', 'metadata.toStringArrayHookFunc', 'metadata.toTimeDurationArrayHookFunc'):
         if kind == 'make':
@@ -188,8 +188,8 @@ def rule(fn, kind, expr, ordn, guards, contract):
     if fn == 'config.var':
         return thm('C07Sites', 'Kit.C07.typeElem_sites', [])
     if fn == 'config.decodeString':
-        if expr in ('t.Kind()', 'f.Kind()') and not any('decoder != nil' in c for c in guards):
-            return '.callerContract "f and t are the non-nil reflect.Types mapstructure passes to a DecodeHookFuncType"'
+        if expr in ('t.Kind()', 'f.Kind()'):
+            return thm('C07Sites', 'Kit.C07.hookTypeCalls_sites', [])
         if kind == 'loop':
             return thm('C07Sites', 'Kit.C07.unwrapIface_terminates', [])
         if expr == 'reflect.ValueOf(data).Elem()':
@@ -203,7 +203,7 @@ def rule(fn, kind, expr, ordn, guards, contract):
         if expr == 'elem.Interface()':
             return thm('C07Sites', 'Kit.C07.decodeString_reflect_sites', need('!(!inner.IsValid() || ((inner.Kind() == reflect.Interface || inner.Kind() == reflect.Ptr) && inner.IsNil()))'))
         if expr in ('t.Implements(typeStringDecoder)', 'reflect.PtrTo(t).Implements(typeStringDecoder)', 'reflect.PtrTo(t)', 'reflect.New(t)', 'reflect.New(t).Interface()'):
-            return '.typeInvariant "typeStringDecoder is an interface type and t is non-nil; reflect.New(t) is a settable non-nil pointer"'
+            return thm('C07Sites', 'Kit.C07.hookTypeCalls_sites', [])
         if any(c == 't.Implements(typeStringDecoder)' for c in guards):
             # hypothesis of the theorem: a type implementing StringDecoder directly is a pointer type
             return thm('C07', 'decodeString_never_panics', need('t.Implements(typeStringDecoder)'))
